@@ -55,6 +55,13 @@ pub fn instantiate(
     let asset_info_0 = pair_info.asset_infos[0].to_normal(deps.api)?;
     let asset_info_1 = pair_info.asset_infos[1].to_normal(deps.api)?;
 
+    // a pool of an asset with itself would report (and pay out) its single balance twice
+    if asset_info_0 == asset_info_1 {
+        return Err(ContractError::Std(StdError::generic_err(
+            "The assets of a pair must be different",
+        )));
+    }
+
     let asset0_label = asset_info_0.clone().get_label(&deps.as_ref())?;
     let asset1_label = asset_info_1.clone().get_label(&deps.as_ref())?;
     let lp_token_name = format!("{asset0_label}-{asset1_label}-LP");
